@@ -309,9 +309,37 @@ func c03ExprOf(app opApp) string {
 		}
 		return ex{}, false
 	}
+	// a nil result on a path that stores an error into a captured variable is the error path of an
+	// operator that reports its error through the enclosing function (opErr = …; return nil)
+	nilIsErrorPath := func() bool {
+		found := false
+		allInstrs(f, func(in ssa.Instruction) {
+			ret, ok := in.(*ssa.Return)
+			if !ok || len(ret.Results) == 0 || !isNilConst(ret.Results[0]) {
+				return
+			}
+			stored := false
+			allInstrs(f, func(x ssa.Instruction) {
+				st, ok := x.(*ssa.Store)
+				if !ok || !dominates(st, ret) {
+					return
+				}
+				if _, isFV := st.Addr.(*ssa.FreeVar); isFV && types.Implements(st.Val.Type(), errT) {
+					stored = true
+				}
+			})
+			if stored {
+				found = true
+			}
+		})
+		return found
+	}
 	var vals []ssa.Value
 	for _, rv := range returnedValues(f, 0) {
 		if isErrVal(rv) {
+			continue
+		}
+		if isNilConst(rv) && nilIsErrorPath() {
 			continue
 		}
 		vals = append(vals, rv)
